@@ -175,6 +175,7 @@ func mustPassChecked(w *World, r *Report, rule string, f *ssa.Function, target *
 
 func rulesC07(w *World, r *Report) {
 	r.Rule("C07.R1", "must-pass-through (checked): NewHeader passes validateAggregationMethod, validateXFilesFactor, fillOffset and ArchiveInfoList.validate; ParseArchiveInfoList passes fillOffset and validate; Header.TakeFrom passes both scalar validators and validate; Create passes NewHeader; Open passes readHeader which passes Header.TakeFrom; all reach the one ArchiveInfoList.validate", 11)
+	ruleHeaderFirstRead(w, r, "C07.R1")
 	vAgg := fn(w.Lib, "validateAggregationMethod")
 	vXff := fn(w.Lib, "validateXFilesFactor")
 	fill := fn(w.Lib, "ArchiveInfoList.fillOffset")
